@@ -71,6 +71,7 @@ class Ref(object):
     free = None            # non reserved addresses from offset to the end of the data area
     capacity = None
     tlvs = None            # [(T, address)]
+    prior_spans = False    # a TLV in front of the NDEF TLV has a value that jumps over reserved bytes
 
     def __repr__(self):
         return "Ref(%s off=%s len=%s cap=%s %s)" % (self.status, self.offset, self.length, self.capacity, self.why)
@@ -146,6 +147,8 @@ def ref_read(mem, hr0, block_f=True, limit=2048):
                 addrs.append(a)
                 a += 1
             val = bytes(mem[x] for x in addrs)
+            if t != NDEF_T and addrs and addrs[-1] - addrs[0] + 1 != len(addrs):
+                r.prior_spans = True
             if t in (LOCK_T, MEM_T):
                 if ln != 3:
                     raise Bad("control TLV with length %d" % ln)
@@ -304,7 +307,7 @@ RANGE_CLASSES = ["factory", "before", "inside", "inside", "tail", "beyond-data",
 
 
 def gen_dynamic(rng, phys=None, data_size=None, nulls=None, n_lock=None, n_mem=None, old_len=None, align=None,
-                hr0=None, hr1=None, classes=None, terminator=None, prop=None):
+                hr0=None, hr1=None, classes=None, terminator=None, prop=None, long_prop=None):
     L = Layout()
     L.dynamic = True
     L.phys = phys or rng.choice([256, 384, 512, 512, 512, 1024, 2048])
@@ -338,13 +341,19 @@ def gen_dynamic(rng, phys=None, data_size=None, nulls=None, n_lock=None, n_mem=N
     for k in kinds:
         slots.append((k, pos))
         pos += 5
+    reserved = static_reserved(True)
     if L.prop_tlv:
         n = rng.randrange(0, 6)
+        if data_size >= 264 and (long_prop or (long_prop is None and rng.random() < 0.3)):
+            n = rng.randrange(104 - (pos + 2) + 1, 104 - (pos + 2) + 80)      # the value jumps over blocks Dh..Fh
         image[pos] = PROP_T
         image[pos + 1] = n
-        pos += 2 + n
+        pos += 2
+        for _ in range(n):
+            while pos in reserved:
+                pos += 1
+            pos += 1
     head_end = pos
-    reserved = static_reserved(True)
     # ---- choose the declared ranges (all but "adjacent") ---------------------------------------
     chosen = []                  # [kind, slot address, start, nbytes, posbyte, exponent, class]
     seen_factory = set()
@@ -413,7 +422,7 @@ def gen_dynamic(rng, phys=None, data_size=None, nulls=None, n_lock=None, n_mem=N
             while want in reserved:
                 want += 1
             s, posb, e = snap(want, rng)
-            if s != want or want >= 2048:
+            if s != want or want >= 2048 or want <= L.offset + 3:
                 continue
             c[2], c[4], c[5] = s, posb, e
             L.adjacent_len = n
